@@ -111,9 +111,14 @@ Section Wrapper.
     | (_, g') => (WNone, {| w_init := w_init w; w_tv := w_tv w; w_inner := g' |})
     end.
 
+  (* GeneratorWrapper.__next__: marks the wrapper initialised and resumes the generator with None - nothing is sent, so nothing
+     is checked against the send type: a send(None) on a wrapper that is treated as not yet initialised *)
+  Definition w_uninit (w : wstate) : wstate := {| w_init := false; w_tv := w_tv w; w_inner := w_inner w |}.
+  Definition w_next (w : wstate) : wres * wstate := w_send (w_uninit w) VNone.
+
   Definition w_step (w : wstate) (o : gop) : wres * wstate :=
     match o with
-    | OpNext => w_send w VNone
+    | OpNext => w_next w
     | OpSend v => w_send w v
     | OpThrow e => w_throw w e
     | OpClose => w_close w
